@@ -12,6 +12,7 @@ import (
 	"fmt"
 	"math"
 	"sort"
+	"strconv"
 	"strings"
 	"time"
 
@@ -35,6 +36,7 @@ func genProducer(r *rng, n int, tier string, emit func(string)) {
 		"cfg errs ; report 1 0 plain boom ~ ~ ; report 1 0 fb E_X msg ~ ; report 0 1 plain x ~ ~",
 		"cfg ~ ; report 1 1 plain boom ~ ~",
 		"cfg t ; req a 01 ; req b 02 ; req ~ 03 ; req c 04",
+		"cfg t ; req ~ *1000001 ; req o1 *2500000 ; req ~ 01",
 		"cfg t bp ; req a 01 ; req b 02 ; req ~ 03 ; req c 04 ; req ~ 05 ; req ~ 06 ; report 1 1 plain boom ~ ~ ; report 1 1 fb E_X msg ~",
 	} {
 		emit(c)
@@ -51,7 +53,11 @@ func genProducer(r *rng, n int, tier string, emit func(string)) {
 				if r.chance(3) {
 					v = bytes.Repeat([]byte{0xab}, 1<<16)
 				}
-				ops = append(ops, fmt.Sprintf("req %s %s", r.pickS("~", "~", "o1", "o2", "o3"), hx(v)))
+				vs := hx(v)
+				if r.chance(2) {
+					vs = fmt.Sprintf("*%d", r.pick(1000001, 1500000, 3000000)) // a large payload, written as *<length> (bytes 0xab)
+				}
+				ops = append(ops, fmt.Sprintf("req %s %s", r.pickS("~", "~", "o1", "o2", "o3"), vs))
 			case x < 52:
 				ops = append(ops, "other")
 			default:
@@ -127,7 +133,12 @@ func execProducer(input string) string {
 		}
 		switch f[0] {
 		case "req":
-			ev := &firebolt.Event{Payload: &firebolt.SimpleProduceRequest{TargetTopic: untilde(f[1]), MessageBytes: unhx(f[2])}, Created: time.Now()}
+			val := unhx(f[2])
+			if strings.HasPrefix(f[2], "*") {
+				n, _ := strconv.Atoi(f[2][1:])
+				val = bytes.Repeat([]byte{0xab}, n)
+			}
+			ev := &firebolt.Event{Payload: &firebolt.SimpleProduceRequest{TargetTopic: untilde(f[1]), MessageBytes: val}, Created: time.Now()}
 			res, err := kp.Process(ev)
 			ps = append(ps, pending{kind: "produce", ok: err == nil, childRes: res != nil})
 		case "other":
@@ -225,7 +236,11 @@ func execProducer(input string) string {
 			children = "event"
 		}
 		if p.kind == "produce" {
-			outs = append(outs, fmt.Sprintf("ok t=%s v=%s children=%s", topic, hx(km.Value), children))
+			vs := hx(km.Value)
+			if len(km.Value) > 1000000 && bytes.Equal(km.Value, bytes.Repeat([]byte{0xab}, len(km.Value))) {
+				vs = fmt.Sprintf("*%d", len(km.Value))
+			}
+			outs = append(outs, fmt.Sprintf("ok t=%s v=%s children=%s", topic, vs, children))
 			continue
 		}
 		var top map[string]json.RawMessage
